@@ -858,8 +858,13 @@ class Orientation(Misorientation):
 
         warnings.filterwarnings("ignore", category=da.PerformanceWarning)
 
-        all_dot_products = da.einsum(sum_over, M, symmetry.data)
-        highest_dot_product = da.max(abs(all_dot_products), axis=-1)
+        all_dot_products = abs(da.einsum(sum_over, M, symmetry.data))
+        # As in Rotation.dot_outer(), rotations of different properness
+        # have a dot product of zero
+        improper = np.logical_xor.outer(other.improper, self.improper)
+        different = np.logical_xor(improper[..., np.newaxis], symmetry.improper)
+        all_dot_products = da.where(different, 0, all_dot_products)
+        highest_dot_product = da.max(all_dot_products, axis=-1)
         order = tuple(range(other.ndim, other.ndim + self.ndim)) + tuple(
             range(other.ndim)
         )
